@@ -649,6 +649,47 @@ def rule_r8(ctx) -> RuleResult:
         rr.ok(RECURSE, "the emitter never writes the self-closing form")
         return rr
     rr.ok(RECURSE, "childless non-void elements are written as `<tag />`")
+    # which tags does the emitter write as a bare `<tag>`?  The condition is evaluated by the constant folder for every tag of
+    # the table; each such tag must be one the parser closes by itself (`no-end-tag`), otherwise the element stays open
+    # after a round trip and swallows what follows
+    import copy as _copy
+    def _appends(block, pred) -> bool:   # a direct statement of the block appends a literal satisfying pred
+        return any(isinstance(b, ast.Expr) and isinstance(b.value, ast.Call) and unparse(b.value.func) == "parts.append" and b.value.args
+                   and isinstance(b.value.args[0], ast.Constant) and isinstance(b.value.args[0].value, str) and pred(b.value.args[0].value) for b in block)
+
+    bare_ifs = [n for st in html_arm for n in ast.walk(st) if isinstance(n, ast.If) and n.orelse
+                and _appends(n.body, lambda v: v == ">") and _appends(n.orelse, lambda v: v.strip() == "/>")]
+    table = ctx.index.const("wikihtml", "ALLOWED_HTML_TAGS")
+    if len(bare_ifs) != 1:
+        raise AnalysisError("to_wikitext: the test that chooses between `>` and ` />` for a childless element was not recognised")
+    if isinstance(table, dict):
+        test = bare_ifs[0].test
+        wrong, undecided = [], 0
+        for tag, data in sorted(table.items()):
+            class T(ast.NodeTransformer):
+                def visit_Attribute(self, n):
+                    if unparse(n) == "node.sarg":
+                        return ast.copy_location(ast.Constant(value=tag), n)
+                    return self.generic_visit(n)
+            e = T().visit(_copy.deepcopy(test))
+            ast.fix_missing_locations(e)
+            try:
+                bare = bool(ctx.index.fold("node_expand", e))
+            except Exception:  # noqa: BLE001
+                undecided += 1
+                continue
+            if bare and not (isinstance(data, dict) and data.get("no-end-tag")):
+                wrong.append(tag)
+        if undecided:
+            raise AnalysisError("to_wikitext: the condition `{}` under which a childless element is written as a bare start tag cannot be "
+                                "folded for {} tags (inconclusive)".format(unparse(test)[:60], undecided))
+        if wrong:
+            rr.bad(Finding("C19.R8", NE, RECURSE, unparse(test)[:80],
+                           "a childless <{}> is written as a bare start tag, but the parser closes an element by itself only when the tag "
+                           "table marks it `no-end-tag`: after a round trip the element stays open and takes the following siblings as "
+                           "children (also: {})".format(wrong[0], ", ".join(wrong[1:6])), bare_ifs[0].lineno))
+        else:
+            rr.ok(RECURSE, "bare start tags are written only for tags the parser closes by itself", {"tags_checked": len(table)})
     fn = ctx.fn("parser.tag_fn")
     flag_assigns = [n for n in walk_no_nested(fn) if isinstance(n, ast.Assign) and len(n.targets) == 1 and isinstance(n.targets[0], ast.Name)
                     and isinstance(n.value, ast.Call) and isinstance(n.value.func, ast.Attribute) and n.value.func.attr == "endswith"
@@ -789,5 +830,121 @@ def rule_r10(ctx) -> RuleResult:
     return rr
 
 
+def rule_r11(ctx) -> RuleResult:
+    """recurse() accepts strings, lists and nodes and raises RuntimeError("invalid WikiNode") for anything else -- None
+    included.  The fields the node constructor initialises to None (declared Optional there: `definition`, `temp_head`) may be
+    handed to recurse() only where the path conditions establish that the field is set.  The parser itself serialises subtrees
+    while it parses (check_for_attributes), so an unguarded use is also an exception out of parse() (seed C01-7B: the
+    definition of a `;term` item written out unconditionally)."""
+    rr = RuleResult("C19.R11", "fields that may be None are serialised only under a test that they are set", min_instances=1)
+    init = ctx.fn("parser.WikiNode.__init__")
+    optional = set()
+    for n in walk_no_nested(init):
+        tgt = val = None
+        if isinstance(n, ast.AnnAssign):
+            tgt, val, ann = n.target, n.value, unparse(n.annotation)
+        elif isinstance(n, ast.Assign) and len(n.targets) == 1:
+            tgt, val, ann = n.targets[0], n.value, ""
+        if isinstance(tgt, ast.Attribute) and isinstance(tgt.value, ast.Name) and tgt.value.id == "self" \
+                and ((isinstance(val, ast.Constant) and val.value is None) or ann.startswith("Optional")):
+            optional.add(tgt.attr)
+    if not optional:
+        raise AnalysisError("WikiNode.__init__: no field initialised to None found (2 confirmed by hand)")
+    rr.instances["optional_fields"] = sorted(optional)
+    m = ctx.index.mod("node_expand")
+    n_uses = 0
+    for q, fn in m.funcs.items():
+        for c in walk_no_nested(fn):
+            if not (isinstance(c, ast.Call) and c.args):
+                continue
+            f = unparse(c.func)
+            args = []
+            if f.split(".")[-1] == "recurse":
+                args = [c.args[0]]
+            elif f == "map" and len(c.args) == 2 and unparse(c.args[0]).split(".")[-1] == "recurse":
+                args = [c.args[1]]
+            for a in args:
+                if isinstance(a, ast.Attribute) and a.attr in optional and isinstance(a.value, ast.Name):
+                    n_uses += 1
+                    conds = X.path_conditions(m.parents, c)
+                    fld = unparse(a)
+                    guarded = any((unparse(t) == fld and truth) or
+                                  (isinstance(t, ast.Compare) and unparse(t.left) == fld and isinstance(t.comparators[0], ast.Constant)
+                                   and t.comparators[0].value is None and ((isinstance(t.ops[0], ast.IsNot) and truth) or (isinstance(t.ops[0], ast.Is) and not truth)))
+                                  for t, truth in conds)
+                    # the call may sit inside an expression statement: take the conditions of its statement
+                    if not guarded:
+                        st = c
+                        while st in m.parents and not isinstance(st, ast.stmt):
+                            st = m.parents[st]
+                        conds = X.path_conditions(m.parents, st)
+                        guarded = any((unparse(t) == fld and truth) or
+                                      (isinstance(t, ast.Compare) and unparse(t.left) == fld and isinstance(t.comparators[0], ast.Constant)
+                                       and t.comparators[0].value is None and ((isinstance(t.ops[0], ast.IsNot) and truth) or (isinstance(t.ops[0], ast.Is) and not truth)))
+                                      for t, truth in conds)
+                    if guarded:
+                        rr.ok("node_expand." + q, "{} serialised under a test that it is set".format(fld))
+                    else:
+                        rr.bad(Finding("C19.R11", NE, "node_expand." + q, unparse(c)[:70],
+                                       "`{}` is None unless the parser filled it in, and recurse(None) raises RuntimeError: serialising such a node "
+                                       "fails -- also inside parse(), which serialises table attribute candidates while parsing".format(fld), c.lineno))
+    if n_uses == 0:
+        rr.ok("node_expand", "no Optional field of WikiNode is handed to recurse()", {"optional_fields": sorted(optional)})
+    return rr
+
+
+def rule_r12(ctx) -> RuleResult:
+    """Content the parser keeps outside `children`/`largs`: a field of WikiNode that starts as None and that the parser fills
+    with node content when it closes a node of some kind (today: `definition` of a `;term:definition` list item; `temp_head`
+    is only a scratch field, reset to None in the same place) has to be written out by the emitter arm of that kind,
+    otherwise the content is gone after a round trip."""
+    rr = RuleResult("C19.R12", "content fields the parser fills besides children/largs are written out by the emitter of that kind", min_instances=1)
+    init = ctx.fn("parser.WikiNode.__init__")
+    optional = {n.target.attr for n in walk_no_nested(init) if isinstance(n, ast.AnnAssign) and isinstance(n.target, ast.Attribute)
+                and isinstance(n.value, ast.Constant) and n.value.value is None}
+    optional |= {n.targets[0].attr for n in walk_no_nested(init) if isinstance(n, ast.Assign) and len(n.targets) == 1
+                 and isinstance(n.targets[0], ast.Attribute) and isinstance(n.value, ast.Constant) and n.value.value is None}
+    pm = ctx.index.mod("parser")
+    filled = {}   # field -> set of kinds
+    scratch = set()
+    for q, fn in pm.funcs.items():
+        for n in walk_no_nested(fn):
+            if isinstance(n, ast.Assign) and len(n.targets) == 1 and isinstance(n.targets[0], ast.Attribute) and n.targets[0].attr in optional \
+                    and isinstance(n.targets[0].value, ast.Name) and n.targets[0].value.id == "node":
+                fld = n.targets[0].attr
+                if isinstance(n.value, ast.Constant) and n.value.value is None:
+                    if q == "_parser_pop":
+                        scratch.add(fld)   # cleared when the node is closed: never visible in a finished tree
+                    continue
+                kinds = set()
+                for t, truth in X.path_conditions(pm.parents, n):
+                    for c in ast.walk(t):
+                        if truth and isinstance(c, ast.Compare) and unparse(c.left) == "node.kind" and isinstance(c.ops[0], (ast.Eq, ast.In)):
+                            kinds |= set(P.kind_name(ctx, c.comparators[0]) or [])
+                filled.setdefault(fld, set()).update(kinds or {"?"})
+    arms, _ = _emitter_arms(ctx)
+    judged = 0
+    for fld, kinds in sorted(filled.items()):
+        if fld in scratch:
+            rr.informational.append({"field": fld, "note": "scratch field: set back to None when the node is closed"})
+            continue
+        if "?" in kinds:
+            raise AnalysisError("parser: the kind of node whose `{}` is filled could not be read from the guards around the store".format(fld))
+        for k in sorted(kinds):
+            arm = arms.get(k)
+            if arm is None:
+                continue
+            judged += 1
+            if any(isinstance(a, ast.Attribute) and a.attr == fld for st in arm for a in ast.walk(st)):
+                rr.ok(RECURSE, "{}: node.{} is written out".format(k, fld))
+            else:
+                rr.bad(Finding("C19.R12", NE, RECURSE, "emitter of {}: node.{} is never read".format(k, fld),
+                               "the parser moves part of the node's content into `{}` (for `;term:definition` items the definition), and the "
+                               "emitter of {} never writes it: `;term:def` is serialised as `;term`".format(fld, k), arm[0].lineno))
+    if judged == 0:
+        rr.ok("parser", "the parser fills no content field besides children/largs")
+    return rr
+
+
 def run(ctx) -> list:
-    return [rule_r1(ctx), rule_r2(ctx), rule_r3(ctx), rule_r4(ctx), rule_r5(ctx), rule_r6(ctx), rule_r7(ctx), rule_r8(ctx), rule_r9(ctx), rule_r10(ctx)]
+    return [rule_r1(ctx), rule_r2(ctx), rule_r3(ctx), rule_r4(ctx), rule_r5(ctx), rule_r6(ctx), rule_r7(ctx), rule_r8(ctx), rule_r9(ctx), rule_r10(ctx), rule_r11(ctx), rule_r12(ctx)]
